@@ -68,8 +68,10 @@ def solver_roles(db, rep, r1, fn, cache):
         if c.endswith("FixedPointAnalysis::trans") or (t.get("f") or "").endswith("FixedPointAnalysis::trans"):
             st = tm.operand(t["args"][2])
             folds = [x for x in calls_in(st) if last_seg(x[1]) == "fold"]
-            if folds:
-                recv = folds[0][2][0]
+            # the neighbour set: the receiver of the fold, or - when a helper of the solver does the folding - the iterator it is given
+            helper_calls = [x for x in calls_in(st) if x[1] in db.mir and db.mir[x[1]].get("file", "").endswith("fixed_point.rs")]
+            if folds or helper_calls:
+                recv = folds[0][2][0] if folds else ("tuple", tuple(helper_calls[0][2]))
                 names = {last_seg(x[1]) for x in calls_in(recv)} & {"forward", "backward"}
                 join_over = "+".join(sorted(names)) or None
                 has_phi = any(s[0] == "phi" for s in subterms(recv))
@@ -209,6 +211,55 @@ def ordering_decision(db, hb):
     return None
 
 
+def iflet_chain(db, hb):
+    """The decision written without a match: `let c = <comparison helper>(..); if let P1 = c { continue } ... else if let P2(x) = c
+    { return Err(FixedPointOrdering(..)) }`.  Returns (init expression of c, [if-let nodes on c])."""
+    from db import all_patterns
+    for n in walk(hb["body"]):
+        for st in n.get("stmts", ()) or ():
+            if st.get("k") != "Let" or st.get("pat", {}).get("k") != "Bind" or "init" not in st:
+                continue
+            init = unq(st["init"])
+            h = db.hir.get(callee(init) or "") if init.get("k") in ("Call", "MethodCall") else None
+            if h is None or not h.get("file", "").endswith("fixed_point.rs") or \
+                    not any(x.get("k") == "MethodCall" and x.get("m", "").endswith("PartialOrd::partial_cmp") for x in walk(h["body"])):
+                continue
+            hid = st["pat"]["hid"]
+            ifs = []
+            for x in walk(hb["body"]):
+                if x.get("k") == "If":
+                    c = unq(x["c"])
+                    if c.get("k") == "LetExpr":
+                        sc = unq(c["init"])
+                        if sc.get("k") == "Path" and sc.get("res", {}).get("hid") == hid:
+                            ifs.append(x)
+            if ifs:
+                return (st["init"], ifs)
+    return None
+
+
+def eval_chain(db, chain, cmp_value):
+    """'continue' / 'some' (a complaint: the branch returning Err(FixedPointOrdering)) / 'none' for one comparison result."""
+    from armlib import pat_matches
+    init, ifs = chain
+    v = evalv(db, init, {}, cmp_value)
+    if v is None:
+        return "?"
+    for x in ifs:
+        c = unq(x["c"])
+        hit = pat_matches(c["pat"], v)
+        if hit is None:
+            return "?"
+        if not hit:
+            continue
+        if any(y.get("k") == "Continue" for y in walk(x["then"])):
+            return "continue"
+        if any(y.get("k") == "Ret" and any(last_seg(z.get("fn", {}).get("ctor_of", "") or "") == "FixedPointOrdering"
+                                           for z in walk(y) if z.get("k") == "Call") for y in walk(x["then"])):
+            return "some"
+    return "none"
+
+
 def r2(db, rep):
     r = rep.rule("R2", "K4", "ordering test, evaluated on the match patterns for each possible result of partial_cmp: "
                  "Equal -> skip, Greater -> accept, Less / incomparable -> complaint; a complaint is followed by the "
@@ -218,8 +269,17 @@ def r2(db, rep):
     for fn in (FWD, BWD):
         hb = db.hir[fn]
         m = ordering_decision(db, hb)
-        rep.anchor(m is not None, "match over partial_cmp in %s" % fn)
+        chain = None
+        if m is None:
+            chain = iflet_chain(db, hb)
+        rep.anchor(m is not None or chain is not None, "match over partial_cmp in %s" % fn)
         for val, w in want.items():
+            if m is None:
+                got = eval_chain(db, chain, val)
+                name = val[0] if len(val) == 1 else val[1][0]
+                r.decide(got == w, "%s|cmp=%s" % (fn, name), db.where(hb, chain[1][0]["l"]),
+                         "when the new state compares %s to the recorded one the solver yields '%s', expected '%s'" % (name, got, w))
+                continue
             try:
                 v = evalv(db, m, {}, val)
                 got = "?" if v is None else {"Some": "some", "None": "none"}.get(v[0], "?")
@@ -322,7 +382,9 @@ def r4(db, rep, cache):
     for fn in (FWD, BWD):
         hb = db.hir[fn]
         found = False
-        for n in walk(hb["body"]):
+        from armlib import unit_bodies
+        # the fold may be written in the solver or in a private helper of the same file that it hands the neighbour states to
+        for n in (x for b_ in unit_bodies(db, hb) for x in walk(b_["body"])):
             if n.get("k") == "MethodCall" and n["name"] == "fold" and n["args"]:
                 init = unq(n["args"][0])
                 init_none = init.get("k") == "Path" and last_seg(init["res"].get("def", "") or init["res"].get("ctor_of", "") or "") == "None"
@@ -337,6 +399,15 @@ def r4(db, rep, cache):
                         if sc.get("k") == "MethodCall" and sc["name"] == "get":
                             m = x
                             break
+                if m is None and len(clo["params"]) >= 2:
+                    # the elements are already the looked-up states (`Option<&State>`): the step matches on the element itself
+                    elem = clo["params"][1].get("name")
+                    for x in walk(clo["body"]):
+                        if x.get("k") == "Match" and x.get("src") == "Normal":
+                            sc = unq(x["scrut"])
+                            if sc.get("k") == "Path" and sc.get("res", {}).get("local") == elem and elem is not None:
+                                m = x
+                                break
                 if m is None:
                     # the step may live in a helper that receives the accumulator and the looked-up neighbour state
                     for x in walk(clo["body"]):
